@@ -816,7 +816,7 @@ class _Subst(ast.NodeTransformer):
         return n
 
 
-def sl_eval(cx, stmts=None, env=None, keep_params=True, with_conds=False):
+def sl_eval(cx, stmts=None, env=None, keep_params=True, with_conds=False, keep=(), max_depth=6):
     """Symbolic evaluation by path enumeration over structured code without loops: returns a list of
     (Return node, canonical value expression with every local substituted by its defining expression along that path).
     `if` arms that only raise are skipped; other `if/else` statements fork the environment."""
@@ -826,7 +826,9 @@ def sl_eval(cx, stmts=None, env=None, keep_params=True, with_conds=False):
         v = _Subst(env).visit(canon(cx.fi, st.value, inline=False))
         t = st.targets[0]
         env = dict(env)
-        if isinstance(t, ast.Name):
+        if isinstance(t, ast.Name) and t.id in keep:
+            env.pop(t.id, None)          # stays symbolic under its own name
+        elif isinstance(t, ast.Name):
             env[t.id] = v
         elif isinstance(t, (ast.Tuple, ast.List)) and isinstance(v, (ast.Tuple, ast.List)) and len(t.elts) == len(v.elts):
             for a, b in zip(t.elts, v.elts):
@@ -877,7 +879,7 @@ def sl_eval(cx, stmts=None, env=None, keep_params=True, with_conds=False):
                 if ends_in_raise(st.body) and not st.orelse:
                     continue
                 nxt = []
-                if len(envs) > 16 or depth > 6:
+                if len(envs) > 16 or depth > max_depth:
                     # too many paths: give up on precision for names assigned inside
                     for e in envs:
                         for y in ast.walk(st):
@@ -1580,6 +1582,29 @@ def tables_c19(run):
     check_routes(run, [('twist:Twist3.line', 'line of action: Plucker(-v - pitch w, w)', ['Plucker([Plucker(-tw.v - tw.pitch() * tw.w, tw.w) for tw in self])'], 'return')], rule=RULE)
 
 
+def _resolve_hooks(prog, cls, recv, e, depth=0):
+    """calls `recv.m(args)` of small methods are replaced by the result expression of the method that class `cls` resolves m to
+    (per-class behaviour moved into overriding hook methods)"""
+    from ..boolfold import value_expr
+
+    class T(ast.NodeTransformer):
+        def visit_Call(self, c):
+            self.generic_visit(c)
+            if isinstance(c.func, ast.Attribute) and isinstance(c.func.value, ast.Name) and c.func.value.id == recv and not c.keywords \
+                    and not any(isinstance(a, ast.Starred) for a in c.args):
+                _, m = prog.lookup_member(cls, c.func.attr)
+                if m is not None and hasattr(m, 'node') and getattr(m, 'kind', None) == 'method' and len(m.params) == len(c.args) + 1:
+                    body = value_expr(m.node)
+                    if body is not None and sum(1 for _ in ast.walk(body)) <= 60:
+                        env = {m.params[0]: ast.Name(id=recv, ctx=ast.Load())}
+                        env.update({p_: a for p_, a in zip(m.params[1:], c.args)})
+                        from ..normalize import _SubstMany
+                        return _SubstMany(env).visit(_copy.deepcopy(body))
+            return c
+    out = T().visit(_copy.deepcopy(e))
+    return ast.fix_missing_locations(out)
+
+
 def block_rows(e):
     """rows of blocks of a block-matrix display over 2-D blocks: r_[c_[a, b], c_[c, d]], vstack((hstack((a, b)), hstack((c, d)))),
     block([[a, b], [c, d]]), concatenate((concatenate((a, b), axis=1), ...), axis=0)  ->  [[a, b], [c, d]]  (canonical ASTs), else None"""
@@ -1690,8 +1715,10 @@ def tables_c20(run):
     fi = cx.fi
     seen = {'m': False, 'f': False}
     cfgf = must_facts(cx.cfg)
+    from ..cfg import pure_locals as _pl, _subst_pure as _sp
+    env_cross = _pl(f.node, keep=('vcross',))
     for r, fs in cx.returns():
-        e = canon(fi, r.value, inline=False)
+        e = canon(fi, _sp(r.value, env_cross), inline=False)
         if any(fc[1] and matches('isinstance(other, SpatialVelocity)', fc[2].ast) is not None for fc in fs):
             ok = matches('SpatialAcceleration(vcross @ other.A)', e) is not None
             seen['m'] = True
@@ -1745,7 +1772,7 @@ def tables_c20(run):
                     feasible = False
             if not feasible:
                 continue
-            e = canon(cr.fi, _subst_pure(r.value, env), inline=True)
+            e = canon(cr.fi, _resolve_hooks(prog, c, rightp, _subst_pure(r.value, env)), inline=True)
             if any(matches(p_, e) is not None for p_ in PM):
                 verdicts.append(('motion', r))
             elif any(matches(p_, e) is not None for p_ in PF):
@@ -1902,20 +1929,32 @@ def tables_c18(run):
     for key, ex, cls in (('twist:Twist3.exp', 'trexp', 'SE3'), ('twist:Twist2.exp', 'trexp2', 'SE2')):
         f = run.prog.func(key)
         fi = FuncInfo.of(f)
-        pats = ['%s(%s(self.S * theta))' % (cls, ex), '%s([%s(S * theta) for S in self.data])' % (cls, ex),
-                '%s([%s(self.S * t) for t in theta])' % (cls, ex),
-                '%s([%s(S * t) for S, t in zip(self.data, theta)])' % (cls, ex)]
+        # names are metavariables: the converted angle may live in any local, the loop variables may be called anything; the single
+        # value of a one-valued twist is self.S or self.data[0] (possibly held in a local)
+        from ..cfg import pure_locals, _subst_pure
+        env = pure_locals(f.node)
+        pats = ['%s(%s(self.S * _TH))' % (cls, ex), '%s([%s(_S * _TH) for _S in self.data])' % (cls, ex),
+                '%s([%s(self.S * _T) for _T in _TH])' % (cls, ex), '%s([%s(self.data[0] * _T) for _T in _TH])' % (cls, ex),
+                '%s([%s(_S * _T) for _S, _T in zip(self.data, _TH)])' % (cls, ex)]
+        unscaled = ['%s(%s(self.S))' % (cls, ex), '%s([%s(_S) for _S in self.data])' % (cls, ex)]
         bad = []
+        odd = []
         n = 0
         for r in own_returns(f.node):
             if r.value is None:
                 continue
             n += 1
-            e = canon(fi, r.value, inline=False)
-            if not any(matches(p, e) is not None for p in pats):
+            e = canon(fi, _subst_pure(r.value, {k_: v_ for k_, v_ in env.items() if isinstance(v_, (ast.Subscript, ast.Attribute))}), inline=False)
+            if any(matches(p, e) is not None for p in pats):
+                continue
+            if any(matches(p, e) is not None for p in unscaled):
                 bad.append(r)
+            else:
+                odd.append(r)
         if bad:
-            run.violation(RULE, key, 'exp form', 'return %s is not %s(%s(S * theta))' % (src(bad[0].value, 60), cls, ex), f=f, node=bad[0])
+            run.violation(RULE, key, 'exp form', 'return %s is not %s(%s(S * theta)): the motion parameter is not applied' % (src(bad[0].value, 60), cls, ex), f=f, node=bad[0])
+        elif odd:
+            run.error('R16: %s: return %s has none of the recognised forms %s(%s(S * theta))' % (key, src(odd[0].value, 60), cls, ex))
         elif n:
             run.holds(RULE, key, 'exp form', 'exp(theta) = %s(S * theta), element-wise for vector theta' % ex, f=f)
     # isprismatic = iszerovec(w)
@@ -2084,6 +2123,32 @@ def tables_c14(run):
 
 
 # =========================================================================== C06 applying a pose to points
+class _HomogIdioms(ast.NodeTransformer):
+    """spell-outs of the homogeneous lift / projection are folded back to the library functions they equal:
+         X[:-1, :] / X[-1, :]  (also X[:-1] / X[-1])            -> h2e(X)
+         vstack([V, ones(..)]) / vstack((V, ones(..)))           -> e2h(V)"""
+
+    def visit_BinOp(self, n):
+        self.generic_visit(n)
+        if isinstance(n.op, ast.Div):
+            for pa, pb in (('_X[:-1, :]', '_Y[-1, :]'), ('_X[:-1]', '_Y[-1]'), ('_X[0:-1, :]', '_Y[-1, :]')):
+                a, b = matches(pa, n.left), matches(pb, n.right)
+                if a is not None and b is not None and ast.dump(a['_X']) == ast.dump(b['_Y']):
+                    return ast.Call(func=ast.Name(id='h2e', ctx=ast.Load()), args=[a['_X']], keywords=[])
+        return n
+
+    def visit_Call(self, n):
+        self.generic_visit(n)
+        if isinstance(n.func, ast.Name) and n.func.id == 'vstack' and len(n.args) == 1 and isinstance(n.args[0], (ast.List, ast.Tuple)) \
+                and len(n.args[0].elts) == 2 and matches('ones(_S)', n.args[0].elts[1]) is not None:
+            return ast.Call(func=ast.Name(id='e2h', ctx=ast.Load()), args=[n.args[0].elts[0]], keywords=[])
+        return n
+
+
+def _homog_idioms(e):
+    return ast.fix_missing_locations(_HomogIdioms().visit(_copy.deepcopy(e)))
+
+
 def _matmul_roles(e, roles):
     """every `a @ b` inside e with the role ('pose' / 'point' / None) of each factor; roles flow through attribute access
     (.A, .T, .data), e2h/h2e/getvector/flatten and comprehension targets (including zip)"""
@@ -2156,7 +2221,12 @@ def tables_c06(run):
         run.holds(RULE, f.key, 'operand integrity', 'neither operand is rebound inside the operator', f=f)
     # routes
     pats_se = ['h2e(left.A @ e2h(v))', 'h2e(left.A @ e2h(right))']
-    rets = [(r, canon(fi, r.value, inline=False)) for r in own_returns(f.node) if r.value is not None]
+    # every return with the locals of its own path in place (A = left.A, vh = e2h(v), ...); the normalised point keeps its name v
+    rets = []
+    for (r, e) in sl_eval(Ctx(run, f.key), keep=('v',), max_depth=14):
+        rets.append((r, _homog_idioms(e)))
+    if not rets:
+        rets = [(r, _homog_idioms(canon(fi, r.value, inline=False))) for r in own_returns(f.node) if r.value is not None]
     facts = must_facts(cfg)
     # the local v is the normalised point: every definition of v is getvector(right[, out='col']) or e2h(v)
     vdefs = [canon(fi, st.value, inline=False) for st in own_walk(f.node)
@@ -2165,15 +2235,18 @@ def tables_c06(run):
                         or matches('e2h(v)', e) is not None for e in vdefs)
     (run.holds if okv else run.violation)(RULE, f.key, 'point normalisation', 'v = getvector(right) (lifted by e2h for SE(n))' if okv else
                                           'the point operand is not normalised by getvector(right) before the product: %s' % [src(e, 40) for e in vdefs], f=f)
+    def anyof(*pats):
+        return lambda e: any(matches(p_, e) is not None for p_ in pats)
     want = {
-        'SE(n) x vector': lambda e: matches('h2e(left.A @ e2h(v))', e) is not None,
-        'SO(n) x vector': lambda e: matches('left.A @ v', e) is not None,
-        'SO(n) x matrix': lambda e: matches('left.A @ right', e) is not None,
-        'SE(n) x matrix': lambda e: matches('h2e(left.A @ e2h(right))', e) is not None,
-        'SE(n) sequence x vector': lambda e: matches('array([h2e(x @ v).flatten() for x in left.A]).T', e) is not None,
-        'SO(n) sequence x vector': lambda e: matches('array([(x @ v).flatten() for x in left.A]).T', e) is not None,
-        'SO(n) sequence x matrix': lambda e: matches('array([x.A @ y for x, y in zip(left, right.T)]).T', e) is not None,
-        'SE(n) sequence x matrix': lambda e: matches('array([h2e(x.A @ e2h(y)).flatten() for x, y in zip(left, right.T)]).T', e) is not None,
+        'SE(n) x vector': anyof('h2e(left.A @ e2h(v))'),
+        'SO(n) x vector': anyof('left.A @ v'),
+        'SO(n) x matrix': anyof('left.A @ right'),
+        'SE(n) x matrix': anyof('h2e(left.A @ e2h(right))'),
+        # (the code rebinds v = e2h(v) before the loop, or names the lifted point separately)
+        'SE(n) sequence x vector': anyof('array([h2e(_X @ v).flatten() for _X in left.A]).T', 'array([h2e(_X @ e2h(v)).flatten() for _X in left.A]).T'),
+        'SO(n) sequence x vector': anyof('array([(_X @ v).flatten() for _X in left.A]).T'),
+        'SO(n) sequence x matrix': anyof('array([_X.A @ _Y for _X, _Y in zip(left, right.T)]).T'),
+        'SE(n) sequence x matrix': anyof('array([h2e(_X.A @ e2h(_Y)).flatten() for _X, _Y in zip(left, right.T)]).T'),
     }
     found = {k: False for k in want}
     for (r, e) in rets:
